@@ -636,6 +636,10 @@ def parse_reader(L):
                             if len(st) == 1:
                                 elem_dec = decode_of(st[0][3], reads[0][2])
                                 in_order = st[0][2] == nxt[3]["elem"]
+                            elif not st and nxt[3].get("driver") == "collect" and not nxt[3].get("filtered") and len(nxt[3].get("results") or []) == 1:
+                                # `(0..n).map(|_| read element).collect()` / a push loop: what each iteration yields is stored, in order
+                                elem_dec = decode_of(nxt[3]["results"][0], reads[0][2])
+                                in_order = elem_dec is not None
                         else:
                             elem = "sub:" + reads[0][1]
                             pu = [x for x in b if x[0] == "push"]
